@@ -11,6 +11,7 @@ import (
 	"path/filepath"
 	"regexp"
 	"runtime"
+	"sort"
 	"strings"
 	"time"
 
@@ -98,6 +99,41 @@ func goroutineSummary() string {
 		}
 	}
 	return clip(strings.Join(out, " || "), 1500)
+}
+
+// c19Ctx is a context of a type the context package does not know: it has its own Done channel.
+type c19Ctx struct {
+	context.Context
+	done chan struct{}
+}
+
+func (c *c19Ctx) Done() <-chan struct{} { return c.done }
+func (c *c19Ctx) Err() error {
+	select {
+	case <-c.done:
+		return context.Canceled
+	default:
+		return nil
+	}
+}
+
+// goroutineCreators summarises "created by" lines of all goroutines (who started what is still running).
+func goroutineCreators() string {
+	buf := make([]byte, 1<<20)
+	n := runtime.Stack(buf, true)
+	counts := map[string]int{}
+	for _, line := range strings.Split(string(buf[:n]), "\n") {
+		if strings.HasPrefix(line, "created by ") {
+			f := strings.Fields(line)
+			counts[f[2]]++
+		}
+	}
+	var out []string
+	for k, c := range counts {
+		out = append(out, fmt.Sprintf("%s x%d", k, c))
+	}
+	sort.Strings(out)
+	return strings.Join(out, ", ")
 }
 
 func producerGoroutines() int {
@@ -424,6 +460,55 @@ func C19(run *hx.Run) {
 			}
 			one.Close()
 		}
+	}
+
+	// (b2) queries that FAIL, and queries read to the end, under a caller's own context type (its own Done
+	// channel, as contexts from tracing/RPC libraries have): whatever the driver derives from it must be
+	// released when the query is over - the runtime parks one goroutine per derived context that is never cancelled
+	{
+		parent := &c19Ctx{Context: context.Background(), done: make(chan struct{})}
+		settle := func() int {
+			n := runtime.NumGoroutine()
+			for i := 0; i < 200; i++ {
+				runtime.Gosched()
+				time.Sleep(500 * time.Microsecond)
+				m := runtime.NumGoroutine()
+				if m == n && i > 20 {
+					break
+				}
+				n = m
+			}
+			return n
+		}
+		before := settle()
+		failing := []string{"SELECT * FROM nosuchtable", "DELETE FROM t", "SELEC * FROM t", "SELECT nosuchcolumn FROM t"}
+		nq := 0
+		for round := 0; round < 10; round++ {
+			for _, q := range failing {
+				rs, err := sq.QueryContext(parent, q)
+				if err == nil {
+					for rs.Next() {
+					}
+					rs.Close()
+				}
+				nq++
+			}
+			if rs, err := sq.QueryContext(parent, "SELECT * FROM t"); err == nil {
+				for rs.Next() {
+				}
+				rs.Close()
+				nq++
+			}
+		}
+		after := settle()
+		run.Eval(nq)
+		run.Distinct("own-context-type/leak")
+		if after > before+3 {
+			run.Violation("C19/leak/goroutine/own-context-type", fmt.Sprintf("%d finished queries (failing ones and complete result sets) under a caller-defined context type: %d goroutines before, %d after; stacks: %s", nq, before, after, clip(goroutineCreators(), 1200)), nil)
+		} else {
+			run.See("cleanup_observed", "no goroutine left per finished query under a caller-defined context")
+		}
+		close(parent.done)
 	}
 
 	// (c) close / cancel after every k
